@@ -509,6 +509,11 @@ def gen(rng, tier, n):
             for i in range(len(d)):
                 for v in (0, 1, 0x3F, 0x40, 0xC0, 0xFF, d[i] ^ 0x80, (d[i] + 1) & 255):
                     out.append(pcase(rng, d[:i] + bytes([v]) + d[i + 1:], 0))
+        # ALL 256 substitutions at every offset of four short seeds
+        for d in [name_layout(rng)[:64] for _ in range(2)] + [message(rng)[0][:64] for _ in range(2)]:
+            for i in range(len(d)):
+                for v in range(256):
+                    out.append(pcase(rng, d[:i] + bytes([v]) + d[i + 1:], 0))
         for d in [message(rng)[0] for _ in range(24)]:
             for f in range(64):
                 out.append(pcase(rng, d, f))
